@@ -43,11 +43,29 @@ pub struct Plan {
     /// loaded, ledger checks off) or "fresh-genesis" (empty node, the edited block is block #1)
     #[serde(default)]
     pub receiver: String,
+    /// leaf-limit family: the producer's own block additionally carries a placeholder transaction standing for
+    /// so many transactions that the block's merkle tree has MAX_MERKLE_TREE_LEAVES + this many leaves (-1 or 0:
+    /// the largest trees a node still builds); the edit is then applied to that block
+    #[serde(default)]
+    pub leaf_delta: Option<i64>,
 }
 
 fn gen(seed: u64, tier: Tier) -> Plan {
     let mut rng = Rng::new(seed);
     let depth = rng.range(2, if tier == Tier::Quick { 8 } else { 15 }) as usize;
+    if rng.chance(1, 2500) {
+        // the 2^20-leaf trees cost seconds each: few runs, shallow history
+        let depth = rng.range(1, 3) as usize;
+        return Plan {
+            seed,
+            depth,
+            target: depth,
+            edit: rng.pick(&["swap-two-txs", "change-tx-payload", "replace-tx-equal-fee", "remove-zero-fee-tx"]).to_string(),
+            ntx: rng.range(2, 4) as usize,
+            receiver: "synced".to_string(),
+            leaf_delta: Some(if rng.chance(2, 3) { 0 } else { -1 }),
+        };
+    }
     Plan {
         seed,
         depth,
@@ -55,6 +73,7 @@ fn gen(seed: u64, tier: Tier) -> Plan {
         edit: rng.pick(EDITS).to_string(),
         ntx: rng.range(2, 5) as usize,
         receiver: rng.pick(&["synced", "synced", "joined-mid-chain", "fresh-genesis"]).to_string(),
+        leaf_delta: None,
     }
 }
 
@@ -69,7 +88,7 @@ impl Scenario for C06 {
     fn meta(&self) -> Meta {
         Meta {
             level: "exploration",
-            rule: "run = honest history of 2..8/15 blocks (2-5 zero- and non-zero-fee payments each); the block at a seeded position is edited by one of 10 edits that keep it decodable: swap two transactions, replace a transaction by another valid one with the same fee, add / remove a zero-fee transaction, remove every transaction, duplicate the last transaction, insert a slip-less SPV-typed stub (standing for 0 or 1 transactions), change a transaction payload (all without touching the signed header, so the hash is unchanged), re-sign the header with another key, change creator / timestamp / treasury without re-signing. Edited block -> node A, original -> node B, then the rest of the history to both. The receiving nodes are synced from genesis, or joined mid-chain (the parent is the first block they ever saw, so the total supply is not loaded and ledger-dependent checks are off), or fresh (the edited block is block #1 itself). Restart stage (synced receivers, hash-preserving edits): the edited block reaches a node as a sibling of its tip, is stored and written to disk unvalidated, the node restarts from its simulated disk (real start-up) and must not end up with the edited transaction list on its longest chain. Oracles: (1) a block whose hash equals the original's but whose ordered transaction list differs is never accepted; (2) whenever A and B report the same tip hash their spendable sets are identical; (3) a header edit either changes the hash or the block is rejected. distinct_nontrivial = distinct (edit, block position, depth) where the edit applied and hashes were compared.",
+            rule: "run = honest history of 2..8/15 blocks (2-5 zero- and non-zero-fee payments each); the block at a seeded position is edited by one of 10 edits that keep it decodable: swap two transactions, replace a transaction by another valid one with the same fee, add / remove a zero-fee transaction, remove every transaction, duplicate the last transaction, insert a slip-less SPV-typed stub (standing for 0 or 1 transactions), change a transaction payload (all without touching the signed header, so the hash is unchanged), re-sign the header with another key, change creator / timestamp / treasury without re-signing. Edited block -> node A, original -> node B, then the rest of the history to both. The receiving nodes are synced from genesis, or joined mid-chain (the parent is the first block they ever saw, so the total supply is not loaded and ledger-dependent checks are off), or fresh (the edited block is block #1 itself). Restart stage (synced receivers, hash-preserving edits): the edited block reaches a node as a sibling of its tip, is stored and written to disk unvalidated, the node restarts from its simulated disk (real start-up) and must not end up with the edited transaction list on its longest chain. Oracles: (1) a block whose hash equals the original's but whose ordered transaction list differs is never accepted (one run in 2500 is the leaf-limit family: the producer's own block also carries a placeholder standing for so many transactions that its merkle tree has exactly MAX_MERKLE_TREE_LEAVES or one leaf fewer - the largest trees a node builds - and a list edit that keeps the leaf total is applied to that block); (2) whenever A and B report the same tip hash their spendable sets are identical; (3) a header edit either changes the hash or the block is rejected. distinct_nontrivial = distinct (edit, block position, depth) where the edit applied and hashes were compared.",
             real: &["Block::deserialize_from_net/generate/generate_merkle_root/validate", "MerkleTree", "Blockchain::add_block"],
             stubs: &["SimIo", "SimConfig", "vendored ahash"],
             assumptions: &["genesis period >> depth"],
@@ -109,7 +128,25 @@ impl Scenario for C06 {
         let fresh_genesis = plan.receiver == "fresh-genesis";
         let mid_chain = plan.receiver == "joined-mid-chain" && plan.target >= 2;
         let tidx = if fresh_genesis { 0 } else { chain[plan.target - 1] };
-        let orig = w.block(tidx);
+        let mut orig = w.block(tidx);
+        let mut orig_bytes = w.recs[tidx].bytes.clone();
+        if let Some(delta) = plan.leaf_delta {
+            if fresh_genesis || mid_chain {
+                r.discarded = true;
+                return r;
+            }
+            let max = saito_core::core::consensus::merkle::MAX_MERKLE_TREE_LEAVES as i64;
+            let mut t = saito_core::core::consensus::transaction::Transaction::default();
+            t.transaction_type = TransactionType::SPV;
+            t.txs_replacements = (max + delta - orig.transactions.len() as i64) as u32;
+            t.timestamp = orig.timestamp;
+            t.signature = [0x5a; 64];
+            orig.transactions.push(t);
+            let creator = w.keys[0].clone();
+            reseal(&mut orig, &creator, true);
+            orig_bytes = orig.serialize_for_net(saito_core::core::consensus::block::BlockType::Full);
+            r.fault("producer_block_at_merkle_leaf_limit", 1);
+        }
         let parent_idx = if fresh_genesis { 0 } else { *w.by_hash.get(&w.recs[tidx].parent).unwrap() };
         let pledger = if fresh_genesis { RefLedger::default() } else { w.ledger_at(parent_idx) };
         // build the edited block
@@ -286,7 +323,7 @@ impl Scenario for C06 {
         }
         r.probe(if fresh_genesis { "receiver_fresh_genesis" } else if mid_chain { "receiver_joined_mid_chain" } else { "receiver_synced" });
         let oa = a.add_block_bytes(&ebytes).as_ref().map(outcome_of);
-        let ob = b.add_block_bytes(&w.recs[tidx].bytes.clone()).as_ref().map(outcome_of);
+        let ob = b.add_block_bytes(&orig_bytes).as_ref().map(outcome_of);
         trace.str(&format!("{:?}{:?}", oa, ob));
         r.steps = plan.depth as u64;
         let a_accepted = matches!(oa, Some(AddOutcome::Added { .. })) && a.bc.blocks.contains_key(&edec.hash);
@@ -319,7 +356,7 @@ impl Scenario for C06 {
             if !a.bc.blocks.contains_key(&orig.hash) {
                 // A rejected the edited block: it now receives the original (as any honest peer would
                 // send it), otherwise everything after it would be an orphan delivery
-                let oa2 = a.add_block_bytes(&w.recs[tidx].bytes.clone()).as_ref().map(outcome_of);
+                let oa2 = a.add_block_bytes(&orig_bytes).as_ref().map(outcome_of);
                 trace.str(&format!("{:?}", oa2));
                 if oa2 != Some(AddOutcome::Added { longest: true }) {
                     r.violate(
@@ -328,7 +365,13 @@ impl Scenario for C06 {
                     );
                 }
             }
-            let rest: &[usize] = if fresh_genesis { &chain[..] } else { &chain[plan.target..] };
+            let rest: &[usize] = if plan.leaf_delta.is_some() {
+                &[]
+            } else if fresh_genesis {
+                &chain[..]
+            } else {
+                &chain[plan.target..]
+            };
             for i in rest {
                 let _ = a.add_block_bytes(&w.recs[*i].bytes.clone());
                 let _ = b.add_block_bytes(&w.recs[*i].bytes.clone());
@@ -348,7 +391,10 @@ impl Scenario for C06 {
         // without validation, as any non-longest block is); the node is then restarted and rebuilds its chain
         // from its own block files, where the edited file sorts before the honest sibling. Blocks read back
         // from disk must be validated like any other.
-        if r.violations.is_empty() && same_hash && txs_differ && !fresh_genesis && !mid_chain && plan.target >= 2 {
+        if plan.leaf_delta.is_some() {
+            r.probe(if a_accepted { "leaf_limit_edit_accepted" } else { "leaf_limit_edit_refused" });
+        }
+        if r.violations.is_empty() && same_hash && txs_differ && !fresh_genesis && !mid_chain && plan.target >= 2 && plan.leaf_delta.is_none() {
             let disk = std::sync::Arc::new(std::sync::Mutex::new(crate::simio::DiskState::default()));
             let key = w.keys[1].clone();
             let mut rn = Node::with_disk(&w.cfg, &key, disk.clone());
